@@ -256,6 +256,14 @@ func TestC13Sequential(t *testing.T) {
 		}
 		rt := &countingRT{}
 		p := newProxy(tbl, rapid.SampledFrom([]string{"prefix", "iprefix"}).Draw(t, "matcher"), rt)
+		// earlier requests with other hosts/paths on the same table must not influence this one
+		for i, n := 0, rapid.IntRange(0, 2).Draw(t, "nbefore"); i < n; i++ {
+			r0 := genReq(t, x)
+			rec0 := httptest.NewRecorder()
+			p.ServeHTTP(rec0, parseRequest(r0))
+			hx.Eval()
+			checkRedirect(func(f string, a ...any) { t.Fatalf(f, a...) }, rec0, x, r0, fmt.Sprintf("%s\nrequest (earlier on the same table): host=%q path=%q query=%q", cfg, r0.host, r0.rawPath, r0.query))
+		}
 		rec := httptest.NewRecorder()
 		p.ServeHTTP(rec, parseRequest(r))
 		hx.Eval()
